@@ -166,21 +166,18 @@ Section CliArchive.
 
       Lemma extract_linear_at lfuel out f : (N.to_nat (len (w_out sf)) < lfuel)%nat ->
         exists blocks, cmd_extract_linear lfuel a privs out f = extract_linear out (sort_names (map fst files)) blocks f /\
-                 forall n d, In (n, d) files -> delivered n blocks = d.
+                 forall n d, In (n, d) files ->
+                   delivered n blocks = if name_in (accepted_names out (sort_names (map fst files)) f) n then d else [].
       Proof.
         intros Hlf. destruct Hopen as (p & r & R & Ho & HR & HRS).
         destruct Hmade as [Hrun Hok Hutf H64 H32 _ _ _ _ _]. pose proof (create_ops_utf8 files Hutf) as Hutf'.
         pose proof (listed_sorted FNMAX TS TC TA TE H order HHlen Horder _ sf rs Hrun Hok Hutf' H64 H32 _ R files eq_refl r HRS) as Hls.
         destruct (linear_roundtrip FNMAX TS TC TA TE H order Htags HHlen _ sf rs Hrun Hok Hutf' H64 H32 _ R HR r
-                    (sort_names (map fst files)) lfuel HRS Hlf) as (blocks & Hlx & _ & Hdel & _).
+                    (accepted_names out (sort_names (map fst files)) f) lfuel HRS Hlf) as (blocks & Hlx & _ & Hdel & _).
         exists blocks. split.
         - unfold Cli.cmd_extract_linear. rewrite Ho, Hls, Hlx. reflexivity.
         - intros n d Hin. destruct (create_started_pieces files 0 n d Hin) as (id & Hst & Hp).
-          rewrite (Hdel n id Hst), Hp.
-          assert (Hni : name_in (sort_names (map fst files)) n = true).
-          { unfold name_in. apply existsb_exists. exists n. split; [|apply bytes_eqb_refl].
-            eapply Permutation_in; [symmetry; apply sort_names_perm|]. change n with (fst (n, d)). apply in_map. exact Hin. }
-          rewrite Hni. reflexivity.
+          rewrite (Hdel n id Hst), Hp. reflexivity.
       Qed.
     End AtOpen.
 
